@@ -160,6 +160,14 @@ def run(ctx, rep):
             a_vals = isinstance(a, ast.Call) and isinstance(a.func, ast.Attribute) and a.func.attr == "values" and isinstance(a.func.value, ast.Attribute) and a.func.value.attr == "parameters"
             if (a_def and b_vals) or (a_vals and b_def):
                 ok = True
+                # the loop variable asked for `.classical` must be the one bound to the DEFINITION's parameters
+                if isinstance(st.target, ast.Tuple) and len(st.target.elts) == 2 and all(isinstance(e, ast.Name) for e in st.target.elts):
+                    names = [e.id for e in st.target.elts]
+                    asked = {n.value.id for s_ in st.body for n in ast.walk(s_) if isinstance(n, ast.Attribute) and n.attr == "classical" and isinstance(n.value, ast.Name)}
+                    def_pos = 0 if a_def else 1
+                    if asked and names[def_pos] not in asked:
+                        ok = False
+                        why = f"`for {ast.unparse(st.target)} in {ast.unparse(it)}` binds `{names[1 - def_pos]}` (asked for .classical) to the statement's argument values and `{names[def_pos]}` to the definition's parameters: the two roles are exchanged"
             else:
                 why = f"`{ast.unparse(it)}` does not pair definition.parameters with statement.parameters.values() directly (sorted/reversed/filtered views break the positional correspondence)"
         elif isinstance(it, ast.Attribute) and it.attr == "parameters":
